@@ -66,7 +66,8 @@ class G:
         # casts
         if t == 'int':
             src = r.choice(['int', 'float', 'digits'])
-            arg = ('str', r.choice(["'12'", '"7"', "'-3'", "' 4 '", "'1_0'", "'x'"])) if src == 'digits' else self.expr(src, d - 1, 0)
+            # (also integers that no double represents exactly: a cast must not go through float)
+            arg = ('str', r.choice(["'12'", '"7"', "'-3'", "' 4 '", "'1_0'", "'x'", "'9007199254740993'", "'-12345678901234567891'", "'72057594037927937'"])) if src == 'digits' else self.expr(src, d - 1, 0)
             args = [arg]
             if self.rich and r.random() < .1:
                 args.append(('int', '16', 16))
